@@ -52,7 +52,12 @@ def consttype_pool():
             p.Sum((p.Product((True, x)), p.Product((1, x))))]
 
 
-ARGSETS = [("_a",), ("_b",), ("_a",)]
+# extra arguments of a call: positional tuples and keyword dicts
+ARGSETS = [("_a",), ("_b",), ("_a",), {"suffix": "_a"}, {"suffix": "_b"}]
+
+
+def _call(m, e, a):
+    return m(e, **a) if isinstance(a, dict) else m(e, *a)
 
 
 def strict_result_equal(a, b):
@@ -108,8 +113,8 @@ def _pairs():
             self.keys = []
 
         def visit(self, expr, *a, **kw):
-            self.seen.add((type(expr).__name__, repr(expr), a))
-            self.keys.append((type(expr), repr(expr), a))
+            self.seen.add((type(expr).__name__, repr(expr), a, tuple(sorted(kw.items()))))
+            self.keys.append((type(expr), repr(expr), a, tuple(sorted(kw.items()))))
             return True
 
         def post_visit(self, expr, *a, **kw): pass
@@ -119,7 +124,7 @@ def _pairs():
             self.seen = set()
 
         def visit(self, expr, *a, **kw):
-            self.seen.add((type(expr).__name__, repr(expr), a))
+            self.seen.add((type(expr).__name__, repr(expr), a, tuple(sorted(kw.items()))))
             return True
 
         def post_visit(self, expr, *a, **kw): pass
@@ -139,10 +144,10 @@ def _pairs():
         def map_variable(self, expr, suffix="", *a): return p.Variable(expr.name + suffix)
 
     return {
-        "identity": (RenC, RenP, True, lambda m, e, a: m(e, *a)),
-        "combine": (SizeC, SizeP, True, lambda m, e, a: m(e, *a)),
-        "collector": (ColC, ColP, True, lambda m, e, a: m(e, *a)),
-        "walk": (WalkC, WalkP, True, lambda m, e, a: (m(e, *a), frozenset(m.seen))[1]),
+        "identity": (RenC, RenP, True, _call),
+        "combine": (SizeC, SizeP, True, _call),
+        "collector": (ColC, ColP, True, _call),
+        "walk": (WalkC, WalkP, True, lambda m, e, a: (_call(m, e, a), frozenset(m.seen))[1]),
         "substitution": (lambda: CachedSubstitutionMapper(subst_func), lambda: SubstitutionMapper(subst_func), False,
                          lambda m, e, a: m(e)),
         "cse_mixin_args": (CseArgC, CseArgP, True, lambda m, e, a: m(e, *a)),
@@ -180,7 +185,8 @@ def check_pair(name, tier, twin=False):
     esel = [z3.Int(f"e{i}") for i in range(L)]
     asel = [z3.Int(f"a{i}") for i in range(L)]
     pre = [z3.And(s >= 0, s < len(P)) for s in esel]
-    pre += [z3.And(s >= 0, s < (len(ARGSETS) if uses_args else 1)) for s in asel]
+    nargsets = (3 if name == "cse_mixin_args" else len(ARGSETS)) if uses_args else 1
+    pre += [z3.And(s >= 0, s < nargsets) for s in asel]
 
     def harness():
         hist = [(explore.realise(esel[i]), explore.realise(asel[i])) for i in range(L)]
@@ -197,6 +203,8 @@ def check_pair(name, tier, twin=False):
             pm = mkp()
             if twin and step == 1:
                 args = ("_twin",)
+            if isinstance(args, dict) and name == "walk":
+                args = dict(args)
             try:
                 exp = ("val", run(pm, P[ei], args))
             except Exception as e:  # noqa: BLE001
@@ -212,7 +220,7 @@ def check_pair(name, tier, twin=False):
                 break
         return hist, bad
 
-    ex = Explorer(pre=pre, max_paths=(len(P) * 3) ** L + 10, timeout_ms=10000)
+    ex = Explorer(pre=pre, max_paths=(len(P) * len(ARGSETS)) ** L + 10, timeout_ms=10000)
     paths = list(ex.run(harness))
     for path in paths:
         res.path_assertions += 1
